@@ -27,6 +27,7 @@ type c06Case struct {
 	Target  string       `json:"target,omitempty"` // "", rel, slash
 	PreOps  []string     `json:"preOps,omitempty"` // From-Root: earlier operations on the same node tree
 	Inodes  int          `json:"inodes,omitempty"` // >0: the target is a file system of its own with room for Inodes-1 entries; the creation beyond that fails (ENOSPC)
+	Mode    uint32       `json:"mode,omitempty"`   // mode bits of the existing target directory (chmod notation, e.g. 01777); 0 = 0755
 }
 
 type c06Pre struct {
@@ -90,15 +91,25 @@ func c06Check(c c06Case) string {
 	cs.Opts.Massive = c.Massive
 	cs.Opts.TargetOpt = c.Target
 	cs.FS = &ops.FSSpec{InodeLimit: c.Inodes}
+	if c.Inodes == 0 && c.State != "missing" {
+		cs.FS.TargetMode = c.Mode
+	}
 	switch c.State {
 	case "missing":
 		cs.FS.TargetMissing = true
 	case "populated":
 		cs.FS.Pre = []ops.FSEntry{{Path: "~unrelated/keep.txt", Kind: "f", Data: "k"}, {Path: "~file.txt", Kind: "f", Data: "x"}, {Path: "~dir/sub", Kind: "d"}}
 	}
+	dangling := false
 	for _, p := range c.PreRoot {
 		if p.Root < len(f) {
-			cs.FS.Pre = append(cs.FS.Pre, ops.FSEntry{Path: f[p.Root].Name, Kind: p.Kind, Data: "pre"})
+			e := ops.FSEntry{Path: f[p.Root].Name, Kind: p.Kind, Data: "pre"}
+			if p.Kind == "dl" {
+				// a dangling symbolic link holds the root's name: os.Stat says "does not exist", mkdir(2) says EEXIST
+				e.Kind, e.Data = "l", "../no/such/place"
+				dangling = true
+			}
+			cs.FS.Pre = append(cs.FS.Pre, e)
 		}
 	}
 	switch c.Refusal {
@@ -133,6 +144,18 @@ func c06Check(c c06Case) string {
 		expected[ops.JailTarget] = nil
 	}
 	switch {
+	case len(c.PreRoot) > 0 && c.Refusal == "" && dangling:
+		// whether the library calls this "path exists" or passes the OS error on is its choice; success it is not:
+		// the root cannot be made (a root with children) or is not what the tree says (a directory / an empty file)
+		if res.Err.Nil {
+			for _, p := range c.PreRoot {
+				if p.Kind == "dl" && p.Root < len(f) {
+					if d := res.After[ops.JailTarget+"/"+f[p.Root].Name]; ops.Kind(d) == "l" {
+						return fmt.Sprintf("%sthe name of root %q is held by a dangling symbolic link; the call reported success and the link is still there (%s): the node was not created", head, f[p.Root].Name, d)
+					}
+				}
+			}
+		}
 	case len(c.PreRoot) > 0 && c.Refusal == "":
 		if !res.Err.IsExistPath {
 			return fmt.Sprintf("%sa root already exists: want the path-exists error, got %q", head, errOrNil(res))
@@ -249,11 +272,14 @@ func c06Record(col *collector, c c06Case) {
 	if c.Inodes > 0 {
 		cl = append(cl, "file-system-runs-full")
 	}
+	if c.Mode != 0 {
+		cl = append(cl, fmt.Sprintf("target-mode:%o", c.Mode))
+	}
 	if c.Target != "" {
 		cl = append(cl, "target:"+c.Target)
 	}
 	nontrivial := (files >= 1 && dirLeaves >= 1 && model.Merge(f).Depth() >= 2) || len(c.PreRoot) > 0 || c.Refusal != "" || c.Inodes > 0
-	col.eval(nontrivial, hash64(fmt.Sprint(f, c.Exts, c.HasExts, c.Entry, c.Massive, c.State, c.PreRoot, c.Refusal, c.LongAt, c.Target, c.PreOps, c.Inodes)), cl...)
+	col.eval(nontrivial, hash64(fmt.Sprint(f, c.Exts, c.HasExts, c.Entry, c.Massive, c.State, c.PreRoot, c.Refusal, c.LongAt, c.Target, c.PreOps, c.Inodes, c.Mode)), cl...)
 	col.sample(func() any { return c })
 }
 
@@ -295,6 +321,9 @@ func c06Gen() *rapid.Generator[c06Case] {
 			c.PreOps = rapid.SliceOfN(rapid.SampledFrom(preOpPool), 1, 2).Draw(t, "preOps")
 		}
 		c.Massive = rapid.IntRange(0, 3).Draw(t, "massive") == 0
+		if rapid.IntRange(0, 3).Draw(t, "oddMode") == 0 {
+			c.Mode = rapid.SampledFrom([]uint32{0o700, 0o1777, 0o2775, 0o711, 0o777}).Draw(t, "mode")
+		}
 		c.State = rapid.SampledFrom([]string{"empty", "empty", "missing", "populated"}).Draw(t, "state")
 		c.Target = rapid.SampledFrom([]string{"", "", "rel", "slash", "short", "tilde"}).Draw(t, "target")
 		if linkTarget(c.Target) && c.State == "missing" {
@@ -309,7 +338,7 @@ func c06Gen() *rapid.Generator[c06Case] {
 					n = len(f)
 				}
 				for i := 0; i < n; i++ {
-					c.PreRoot = append(c.PreRoot, c06Pre{Root: rapid.IntRange(0, len(f)-1).Draw(t, "preRoot"), Kind: rapid.SampledFrom([]string{"d", "f"}).Draw(t, "preKind")})
+					c.PreRoot = append(c.PreRoot, c06Pre{Root: rapid.IntRange(0, len(f)-1).Draw(t, "preRoot"), Kind: rapid.SampledFrom([]string{"d", "f", "d", "f", "dl"}).Draw(t, "preKind")})
 				}
 			}
 		case 1:
